@@ -142,9 +142,11 @@ class Scenario:
                 self.runner._var_dims = {"out": ()}
             return fix
         if fail == "merge-conflict":
+            # the crop's own harvester already HOLDS a dataset in memory (it harvested an unrelated point before);
+            # somebody else then writes conflicting data to the shared file: the reap must see it
+            self.farmer.harvest_combos({"a": [9], "b": [9]}, verbosity=0)
             other = xyzpy.Harvester(xyzpy.Runner(fn_other, var_names="out"), data_name=self.farmer.data_name)
             other.harvest_combos({"a": [1], "b": [4]}, verbosity=0)
-            self.farmer._full_ds = None
             self.retry_opts = {"overwrite": True}      # the documented way to resolve a conflict
             return lambda: None
         if fail == "merge-conflict-deleted":
